@@ -345,6 +345,10 @@ class Engine:
 
     def e_Dict(self, e, st):
         # {} , {k: v, ...}, {**a, **b}
+        if e.keys and all(isinstance(k, ast.Constant) and isinstance(k.value, (bool, str)) for k in e.keys):
+            # a small python-level mapping with constant keys (e.g. {True: SeenSet(), False: SeenSet()})
+            return [(s, Obj('pydict', {'items': [(C(k.value), v) for k, v in zip(e.keys, vs)]}))
+                    for s, vs in self.eval_seq(list(e.values), st)]
         outs = [(st, Z.ZMap.empty())]
         for k, v in zip(e.keys, e.values):
             nxt = []
